@@ -111,7 +111,7 @@ mod __verif_c21 {
         std::mem::forget(s);
     }
 
-    // @harness tiers=thorough timeout=2400
+    // @harness tiers=experimental timeout=2400
     // @encodes physical::morsel_agg::AccumulatorState::update, physical::morsel_agg::AccumulatorState::update_i64, physical::morsel_agg::AccumulatorState::merge, physical::morsel_agg::AccumulatorState::finalize, physical::morsel_agg::compare_scalar_values
     // @bounds MIN and MAX (symbolic choice) over 3 BIGINT inputs (NULL or |x| < 2^40), any morsel boundary, both update paths
     // @oracle NULL iff no non-NULL input, else the integer minimum / maximum of the non-NULL inputs
@@ -132,7 +132,7 @@ mod __verif_c21 {
         std::mem::forget(got);
     }
 
-    // @harness tiers=thorough timeout=2400
+    // @harness tiers=experimental timeout=2400
     // @encodes physical::morsel_agg::AccumulatorState::update, physical::morsel_agg::AccumulatorState::update_i64, physical::morsel_agg::AccumulatorState::merge, physical::morsel_agg::AccumulatorState::finalize, physical::morsel_agg::scalar_to_f64
     // @bounds AVG over 3 BIGINT inputs (NULL or |x| < 2^40 so every partial sum is exact in f64), any morsel boundary, both update paths
     // @oracle NULL iff no non-NULL input, else (exact sum as f64) / (count as f64), bit for bit
